@@ -11,7 +11,16 @@ HARNESSES = [
                      'after finalization: header acceptance / structure invariants still hold, the final block stays on the best chain, no freed block index is touched (engine use-after-free check)'],
      'rungs': {'quick': [{'defines': ['NBLK=5'], 'bound': 'every tree shape on 5 blocks x every dirty set x maxReorg 1..2 x preserve 0..2, then one more header on any block', 'timeout': 280}],
                'thorough': [{'defines': ['NBLK=6'], 'bound': 'every tree shape on 6 blocks, otherwise as quick', 'timeout': 3000}]}},
+    {'name': 'h_toyfin', 'src': 'C09/h_toyfin.cpp', 'entry': 'h_toyfin', 'repo_srcs': srcsets_tree.BTC_TREE + ['src/pop/blockchain/pop/fork_resolution.cpp'], 'covers': [1, 2, 3], 'jobs': 8,
+     'obligations': ['F-TT: after finalizeBlocks with a preserved window the real POP-aware comparator returns > 0 for every candidate that forks off below the final block (all keystone geometries), and the active chain keeps the final block',
+                     'F-TT: for candidates forking at or above the final block a finalizing instance and a never-finalizing twin give the same verdict'],
+     'rungs': {'quick': [{'defines': ['LCH=4'], 'bound': 'main chain of 4 blocks, fork of 1..2 blocks at any height, keystone interval 1..3 or 10, maxReorg 1..2, preserve 0..2', 'timeout': 250}],
+               'thorough': [{'defines': ['LCH=6'], 'bound': 'main chain of 6 blocks, otherwise as quick', 'timeout': 1500}]}},
 ]
+import importlib.util as _ilu
+_rp = _ilu.spec_from_file_location('realspec', os.path.join(os.path.dirname(os.path.abspath(__file__)), '..', 'real', 'spec.py'))
+_real = _ilu.module_from_spec(_rp); _rp.loader.exec_module(_real)
+HARNESSES += _real.FIN_HARNESSES
 EXPLANATION = 'Finalization of the real BaseBlockTree is executed on every bounded tree, dirty set and parameter choice; block indices are really deallocated, so the engine checks every later access for use-after-free.'
-ASSUMPTIONS = ['BTC instantiation (work-based fork resolution); the POP-aware TIP_IS_FINAL short-cuts are exercised only in the F-TT harness family',
+ASSUMPTIONS = ['h_fin uses the BTC instantiation (work-based fork resolution); the POP-aware TIP_IS_FINAL short-cuts are decided by h_toyfin on the F-TT system',
                'the three-tree cascade AltBlockTree -> VbkBlockTree -> BTC finalizeBlocks, payload-id retention for duplicate detection and the aggressive-vs-never-finalizing twin are outside']
